@@ -145,6 +145,11 @@ pub struct Case {
     /// reset the traps, so a signal sent to a young child stays pending
     #[serde(default)]
     pub trapterm: bool,
+    /// the shell is interactive (`sh -i -c ...`): built-ins of the main shell
+    /// run next to a helper that watches for SIGINT and records other caught
+    /// signals, asynchronous jobs are announced on stderr
+    #[serde(default)]
+    pub interactive: bool,
     /// engine (k): a process-table history instead of a program
     #[serde(default)]
     pub khist: Option<crate::procs::KHist>,
@@ -160,6 +165,10 @@ struct Gen<'a> {
     word: u32,
     funcs: Vec<u32>,
     budget: i32,
+    /// an interactive shell ignores SIGTERM, and so does a child until it has
+    /// reset its dispositions: a TERM sent to a young child may be discarded
+    /// (a race of the script, as in any shell), so these programs use HUP / KILL
+    interactive: bool,
     sigpar: bool,
     /// jobs of enclosing shell processes whose `$p_N` is set when the child
     /// being generated starts: the child inherits the variable, not the job
@@ -308,7 +317,7 @@ impl Gen<'_> {
                     self.next_id += 1;
                     out.push(N::Killed {
                         id: self.next_id,
-                        sig: *self.rng.pick(&[9u8, 15, 15, 1]),
+                        sig: if self.interactive { *self.rng.pick(&[9u8, 1, 1, 1]) } else { *self.rng.pick(&[9u8, 15, 15, 1]) },
                     });
                     out.push(N::Qm);
                 }
@@ -445,8 +454,10 @@ pub fn generate(rng: &mut Rng, tier: Tier) -> Case {
         Tier::Thorough => rng.range(4, 25) as i32,
     };
     let sigpar = rng.below(5) == 0;
+    let interactive = rng.below(5) == 0;
     let mut g = Gen {
         rng,
+        interactive,
         sigpar,
         outer_jobs: Vec::new(),
         next_id: 0,
@@ -474,9 +485,12 @@ pub fn generate(rng: &mut Rng, tier: Tier) -> Case {
     Case {
         nodes,
         pipefail,
-        dash_c,
+        // (an interactive shell reading commands from its standard input
+        // prints prompts; `-c` keeps stderr to the job announcements)
+        dash_c: dash_c || interactive,
         sigpar,
         trapterm,
+        interactive,
         khist: None,
     }
 }
@@ -1102,6 +1116,7 @@ fn spec_of(c: &Case) -> ScriptSpec {
     ScriptSpec {
         script: render_case(c),
         dash_c: c.dash_c,
+        options: if c.interactive { vec!["-i".into()] } else { Vec::new() },
         ..Default::default()
     }
 }
@@ -1136,7 +1151,20 @@ pub fn check_run_opt(c: &Case, exp: &Expect, obs: &Observed, truth: bool) -> Opt
         &exp_relaxed
     };
     let want_status = format!("exited:{}", exp.status);
-    if truth && (obs.stdout != exp.stdout || obs.status != want_status || !obs.stderr.is_empty()) {
+    // (an interactive shell announces its asynchronous jobs as `[n] pid` and
+    // reports their end as `[n] + Done ...`)
+    let stderr_rest: String = obs
+        .stderr
+        .lines()
+        .filter(|l| {
+            !(c.interactive
+                && l.strip_prefix('[')
+                    .and_then(|r| r.split_once("] "))
+                    .is_some_and(|(n, _)| n.parse::<u32>().is_ok()))
+        })
+        .collect::<Vec<_>>()
+        .join("\n");
+    if truth && (obs.stdout != exp.stdout || obs.status != want_status || !stderr_rest.is_empty()) {
         let key = if obs.stderr.contains("no job to wait for") {
             "truth:wait-echild-while-child-alive"
         } else {
@@ -1315,7 +1343,7 @@ fn failure(
 }
 
 fn run_one(c: &Case, exp: &Expect, cfg: &SimConfig, decider: Decider) -> (Observed, Option<(String, String, String)>) {
-    let obs = run_script(&spec_of(c), cfg, decider);
+    let obs = norm_fds(c, run_script(&spec_of(c), cfg, decider));
     let v = check_run(c, exp, &obs);
     (obs, v)
 }
@@ -1325,6 +1353,40 @@ fn spec_with_fds(c: &Case) -> ScriptSpec {
 }
 
 /// (descriptor 1 is redirected while `fds` runs: its saved copy is 10c)
+/// An interactive shell keeps one more descriptor for its own use (>= 10,
+/// close-on-exec; absent if opening it failed): the descriptor listings of
+/// such runs are compared below 11 only.
+fn norm_fds(c: &Case, mut obs: Observed) -> Observed {
+    if !c.interactive {
+        return obs;
+    }
+    let fix = |text: &str| -> String {
+        let mut out = String::new();
+        for l in text.split_inclusive('\n') {
+            if l.starts_with("fds:") {
+                let nl = l.ends_with('\n');
+                let kept: Vec<&str> = l
+                    .trim_end_matches('\n')
+                    .split(' ')
+                    .filter(|t| t.trim_end_matches('c').parse::<u32>().map_or(true, |n| n < 11))
+                    .collect();
+                out.push_str(&kept.join(" "));
+                if nl {
+                    out.push('\n');
+                }
+            } else {
+                out.push_str(l);
+            }
+        }
+        out
+    };
+    obs.stdout = fix(&obs.stdout);
+    if let Some(f) = obs.files.get_mut("/work/fds_final") {
+        f.2 = fix(&String::from_utf8_lossy(&f.2)).into_bytes();
+    }
+    obs
+}
+
 const FDS_FINAL: &str = "fds: 0 1 2 10c";
 
 fn fds_line(obs: &Observed) -> Option<String> {
@@ -1340,7 +1402,7 @@ fn emfile_baseline(c: &Case) -> (String, u32) {
         fail_alloc_pid: None,
         ..Default::default()
     };
-    let obs = run_script(&spec_with_fds(c), &cfg, Decider::record(Rng::new(1)));
+    let obs = norm_fds(c, run_script(&spec_with_fds(c), &cfg, Decider::record(Rng::new(1))));
     (fds_line(&obs).unwrap_or_default(), obs.alloc_count)
 }
 
@@ -1351,7 +1413,7 @@ fn run_emfile(
     decider: Decider,
     base_fds: &str,
 ) -> (Observed, Option<(String, String, String)>) {
-    let obs = run_script(&spec_with_fds(c), cfg, decider);
+    let obs = norm_fds(c, run_script(&spec_with_fds(c), cfg, decider));
     let mut v = check_run_opt(c, exp, &obs, false);
     if v.is_none()
         && let Some(l) = fds_line(&obs)
@@ -1389,6 +1451,7 @@ fn khist_case(h: crate::procs::KHist) -> Case {
         dash_c: false,
         sigpar: false,
         trapterm: false,
+        interactive: false,
         khist: Some(h),
     }
 }
@@ -1411,7 +1474,7 @@ fn run_khist(h: &crate::procs::KHist, reach: &mut BTreeMap<&'static str, u64>) -
 }
 
 fn run_crash(c: &Case, cfg: &SimConfig, decider: Decider) -> Observed {
-    crate::shellrun::run_script_with(&spec_of(c), cfg, decider, |_| {}, crate::shellrun::crash_env(cfg))
+    norm_fds(c, crate::shellrun::run_script_with(&spec_of(c), cfg, decider, |_| {}, crate::shellrun::crash_env(cfg)))
 }
 
 impl Prop for C13 {
@@ -1517,7 +1580,7 @@ impl Prop for C13 {
                 let k = 1 + rng.below(forks);
                 let mut cfg = draw_config(&mut rng, 1 + j);
                 cfg.fail_spawn_at = Some(k);
-                let obs = run_script(&spec_of(&case), &cfg, Decider::record(Rng::stream(seed, 1391 + j as u64, index)));
+                let obs = norm_fds(&case, run_script(&spec_of(&case), &cfg, Decider::record(Rng::stream(seed, 1391 + j as u64, index))));
                 stats.note_run(case_hash ^ 0xEA6A, &obs.outcome, obs.faults_fired);
                 stats.add_counters(&obs.counters);
                 stats.digest(index, crate::shellrun::obs_digest(&obs));
@@ -1605,7 +1668,7 @@ impl Prop for C13 {
             });
         }
         if cfg.fail_spawn_at.is_some() {
-            let obs = run_script(&spec_of(&c), cfg, Decider::replay(decisions));
+            let obs = norm_fds(&c, run_script(&spec_of(&c), cfg, Decider::replay(decisions)));
             return check_run_opt(&c, &exp, &obs, false).or_else(|| fd_leak(&obs, "after a fork failed with EAGAIN")).map(|v| {
                 let mut f = failure(&c, cfg, &obs, decisions, v);
                 f.key = format!("eagain:{}", f.key);
@@ -1640,6 +1703,7 @@ impl Prop for C13 {
                     dash_c: c.dash_c,
                     sigpar: c.sigpar,
                     trapterm: c.trapterm,
+                    interactive: c.interactive,
                     khist: None,
                 })
                 .unwrap(),
@@ -1653,6 +1717,7 @@ impl Prop for C13 {
                     dash_c: c.dash_c,
                     sigpar: c.sigpar,
                     trapterm: c.trapterm,
+                    interactive: c.interactive,
                     khist: None,
                 })
                 .unwrap(),
